@@ -89,6 +89,18 @@ _BPM_POOL_RAW = [
 BPM_POOL = [b for b in _BPM_POOL_RAW if bpm_representable(b)]
 
 
+def draw_bpm(rng: Any) -> int:
+    """A tempo value: from the fixed pool, or (a third of the time) any thousandth-BPM value in
+    the usual range - arithmetic slips (truncation instead of rounding, a lossy round trip) show
+    for a small fraction of all values only."""
+    if rng.random() < 0.35:
+        for _ in range(8):
+            raw = rng.randint(20_000, 400_000)
+            if bpm_representable(raw):
+                return raw
+    return rng.choice(BPM_POOL)
+
+
 def triplet_threshold(resolution: int) -> int:
     return round(resolution / 3)
 
@@ -133,11 +145,11 @@ def gen_doc(rng: random.Random, *, resolutions: list[int] | None = None, max_tra
     # ---- tempo map
     n_t = rng.choice([1, 1, 2, 2, 3, 4, 6] if not small else [1, 2, 3])
     span = max(4 * res, 40)
-    tempos = [[0, rng.choice(BPM_POOL)]]
+    tempos = [[0, draw_bpm(rng)]]
     t = 0
     for _ in range(n_t - 1):
         t += rng.choice([1, max(1, res // 2), res, 2 * res, 4 * res, rng.randint(1, span)])
-        tempos.append([t, rng.choice(BPM_POOL)])
+        tempos.append([t, draw_bpm(rng)])
     doc["tempos"] = tempos
     horizon = t + span
 
